@@ -4,6 +4,7 @@
 #include <sched.h>
 #include <atomic>
 #include <mutex>
+#include <set>
 #include <thread>
 #include "../aj/apply.hpp"
 #include "../common/driver_main.hpp"
@@ -23,33 +24,45 @@ extern "C" void __sanitizer_symbolize_pc(void* pc, const char* fmt, char* out_bu
 #  define VF_TSAN 0
 #endif
 
-static std::mutex g_rep_mutex;
-static std::vector<std::string> g_reports;        // one entry per ThreadSanitizer report (filled from the report hook)
+// ThreadSanitizer reports: the report hook runs inside the runtime (its locks held), so it only copies raw program
+// counters into a preallocated table with atomics; symbolisation happens after the threads have been joined.
+static const int MAXREP = 128, MAXPC = 24;
+struct RawReport { void* pcs[2][MAXPC]; int write[2]; int mops; };
+static RawReport g_raw[MAXREP];
 static std::atomic<int> g_report_count{0};
 
 #if VF_TSAN
 extern "C" void __tsan_on_report(void* rep) {
-  g_report_count++;
+  int idx = g_report_count.fetch_add(1);
+  if (idx >= MAXREP) return;
   const char* desc = ""; int count = 0, stacks = 0, mops = 0, locs = 0, mutexes = 0, threads = 0, utids = 0; void* sleep_trace[4];
   __tsan_get_report_data(rep, &desc, &count, &stacks, &mops, &locs, &mutexes, &threads, &utids, sleep_trace, 4);
-  std::string text = std::string(desc ? desc : "?") + ":";
-  bool lib = false;
-  for (int m = 0; m < mops && m < 2; m++) {
-    int tid, size, write, atomic; void* addr; void* trace[24] = {0};
-    __tsan_get_report_mop(rep, (unsigned long)m, &tid, &addr, &size, &write, &atomic, trace, 24);
-    text += write ? " [write" : " [read";
+  RawReport& r = g_raw[idx];
+  r.mops = mops > 2 ? 2 : mops;
+  for (int m = 0; m < r.mops; m++) {
+    int tid, size, atomic; void* addr;
+    for (int i = 0; i < MAXPC; i++) r.pcs[m][i] = nullptr;
+    __tsan_get_report_mop(rep, (unsigned long)m, &tid, &addr, &size, &r.write[m], &atomic, r.pcs[m], MAXPC);
+  }
+}
+
+static std::string describe_report(const RawReport& r, bool& lib) {
+  std::string text = "data race:";
+  lib = false;
+  for (int m = 0; m < r.mops; m++) {
+    text += r.write[m] ? " [write" : " [read";
     int shown = 0;
-    for (int i = 0; i < 24 && trace[i] && shown < 6; i++) {
+    for (int i = 0; i < MAXPC && r.pcs[m][i] && shown < 6; i++) {
       char buf[512]; buf[0] = 0;
-      __sanitizer_symbolize_pc(trace[i], "%f %s", buf, sizeof buf);
+      __sanitizer_symbolize_pc(r.pcs[m][i], "%f %s", buf, sizeof buf);
       std::string f = buf;
-      if (f.find("/src/ArduinoJson/") != std::string::npos) lib = true;
-      if (f.find("/src/ArduinoJson/") != std::string::npos || shown < 2) { size_t sp = f.find(' '); std::string fn = f.substr(0, sp); size_t par = fn.find('('); if (par != std::string::npos) fn = fn.substr(0, par); size_t sl = f.rfind('/'); text += " " + fn.substr(0, 80) + "@" + (sl == std::string::npos ? "" : f.substr(sl + 1)); shown++; }
+      bool inlib = f.find("/src/ArduinoJson/") != std::string::npos;
+      if (inlib) lib = true;
+      if (inlib || shown < 2) { size_t sp = f.find(' '); std::string fn = f.substr(0, sp); size_t par = fn.find('('); if (par != std::string::npos) fn = fn.substr(0, par); size_t sl = f.rfind('/'); text += " " + fn.substr(0, 80) + "@" + (sl == std::string::npos ? "" : f.substr(sl + 1)); shown++; }
     }
     text += "]";
   }
-  std::lock_guard<std::mutex> g(g_rep_mutex);
-  g_reports.push_back((lib ? "LIB " : "HARNESS ") + text);
+  return text;
 }
 #endif
 
@@ -161,16 +174,21 @@ void vf_run_case(Ctx& c, uint64_t index) {
     if (!fails[(size_t)t].empty()) c.violation("concurrent-run-differs-from-model", fails[(size_t)t], wit);
     else if (got[(size_t)t] != ref[(size_t)t]) c.violation("concurrent-run-differs-from-sequential", "thread " + std::to_string(t) + " produced other results than the same workload run alone", wit);
   }
-  // ThreadSanitizer reports raised during this case
+  // ThreadSanitizer reports raised during this case (symbolised now, outside the runtime's report path)
   int nrep = g_report_count.load() - reports_before;
+#if VF_TSAN
   if (nrep) {
-    std::lock_guard<std::mutex> g(g_rep_mutex);
-    for (auto& s : g_reports) {
-      if (s.rfind("LIB ", 0) == 0) c.violation("data-race-in-library", s.substr(4), wit);
-      else c.violation("data-race-in-harness", s, wit);
+    std::set<std::string> seen;
+    for (int i = reports_before; i < reports_before + nrep && i < MAXREP; i++) {
+      bool lib; std::string d = describe_report(g_raw[i], lib);
+      if (!seen.insert(d).second) continue;
+      c.violation(lib ? "data-race-in-library" : "data-race-in-harness", d, wit);
     }
-    g_reports.clear();
+    c.count("tsan_reports", (uint64_t)nrep);
   }
+#else
+  (void)nrep;
+#endif
   // interleaving diversity: order of (thread) at each recorded point
   {
     std::vector<std::pair<uint64_t, int>> all;
